@@ -24,7 +24,7 @@ from .. import tlc
 
 PID = "G04"
 # FALSE: the specification models SimulatorTask._run as the code has it (finding G04:sim-poll-reads-state-before-returncode, named
-# deviation SimTornPoll).  Set to "TRUE" once /repo is repaired (out/proposed_fixes/G04_simulator_torn_poll.diff): the strong property
+# deviation SimTornPoll).  Set to "TRUE" once /repo is repaired (findings/G04_simulator_torn_poll.diff): the strong property
 # SimDeadHasCode then holds and is checked as an invariant.
 SIM_STATE_LAST = os.environ.get("G04_SIM_STATE_LAST", "TRUE")    # repaired in /repo, see known_findings.json
 FINDING_SIM = "sim-poll-reads-state-before-returncode"
@@ -350,7 +350,7 @@ def transition_cover(chk, name, edges, kind, params):
             FOUND[FINDING_SIM] = ("SimulatorTask: poll() copies _real_state and _real_return_code without the lock _run holds; a poll between `_real_state = "
                                   "finished` and the return code leaves the task dead with returncode None for ever: exitReason raises TypeError, status "
                                   "'failed', wait() has returned (%d replayed queries of the real task answered so; repro "
-                                  "out/proposed_fixes/G04_simulator_torn_poll_repro.py, repair G04_simulator_torn_poll.diff, then G04_SIM_STATE_LAST=TRUE)" % n)
+                                  "findings/G04_simulator_torn_poll_repro.py, repair G04_simulator_torn_poll.diff, then G04_SIM_STATE_LAST=TRUE)" % n)
     if full:
         p = max(full, key=len)
         chk.sample({"model": name, "longest_path": [x[0][:2] for x in p]}, limit=6)
